@@ -82,11 +82,11 @@ type Pair struct {
 // that NaN payloads, infinities and -0 are compared exactly.
 type Tree struct {
 	Kind  Kind   `json:"kind"`
-	Bits  uint64 `json:"bits,omitempty"`  // Number
-	Bool  bool   `json:"bool,omitempty"`  // Boolean
-	Str   string `json:"str,omitempty"`   // String
-	Pairs []Pair `json:"pairs,omitempty"` // Object, EcmaArray (ordered, keys may repeat on the wire), StrictArray (values)
-	Count uint32 `json:"count,omitempty"` // EcmaArray: the count hint as written on the wire
+	Bits  uint64 `json:"bits,omitempty,string"` // Number: IEEE-754 bit pattern (a decimal string in JSON: 64-bit integers do not survive float64-based JSON tools)
+	Bool  bool   `json:"bool,omitempty"`        // Boolean
+	Str   string `json:"str,omitempty"`         // String
+	Pairs []Pair `json:"pairs,omitempty"`       // Object, EcmaArray (ordered, keys may repeat on the wire), StrictArray (values)
+	Count uint32 `json:"count,omitempty"`       // EcmaArray: the count hint as written on the wire
 }
 
 // Constructors.
@@ -591,12 +591,12 @@ func MarkerBodies(m byte) [][]byte {
 type Context uint8
 
 const (
-	TopLevel     Context = iota
-	InObject             // value of the only property of an object
-	InObjectNext         // value of the second property of an object (after a valid one)
-	InEcmaArray          // value of the only entry of an ECMA array
-	InStrictArray        // the only element of a strict array
-	InStrictNext         // the second element of a strict array (after a valid one)
+	TopLevel      Context = iota
+	InObject              // value of the only property of an object
+	InObjectNext          // value of the second property of an object (after a valid one)
+	InEcmaArray           // value of the only entry of an ECMA array
+	InStrictArray         // the only element of a strict array
+	InStrictNext          // the second element of a strict array (after a valid one)
 	NContexts
 )
 
@@ -936,11 +936,16 @@ func HasNonEmptyStrict(t *Tree) bool {
 }
 
 // NeutraliseStrict returns a copy of t with every non-empty strict array
-// replaced by null.
+// replaced by an object holding the same elements under the keys "0", "1", ...
+// (the strict array is removed as a trigger while everything nested inside it
+// stays in the case).
 func NeutraliseStrict(t *Tree) *Tree {
 	return t.Map(func(n *Tree) *Tree {
 		if n.Kind == StrictArray && len(n.Pairs) > 0 {
-			return Nul()
+			n.Kind = Object
+			for i := range n.Pairs {
+				n.Pairs[i].Key = fmt.Sprintf("%d", i)
+			}
 		}
 		return n
 	})
